@@ -134,8 +134,6 @@ Theorem C17_results_in_range : forall i q,
 Proof. exact results_closed. Qed.
 
 (* ---- non-vacuity: a leap day, a month end, a year end, the last day, a fraction span -------- *)
-Definition secs (n : num) : quantity := {| q_mag := n; q_dims := seconds_dims |}.
-Definition on (s : string) (f : Z -> res Z) : string := show_T (bind (instant_from_iso s) f).
 
 Example C17_leap_day :
   on "2024-02-28T23:59:59.999999" ceil_instant = "T:2024-02-29T00:00:00"
